@@ -551,6 +551,11 @@ class Function:
                 steps = ss + steps
                 cur = ins.d['base']
             elif ins.op in ('bitcast', 'addrspacecast'):
+                um = ins.d.get('um')
+                if um:
+                    # a cast of a pointer to a union selects one named member of it
+                    fields = [um] + fields
+                    steps = [('f', um)] + steps
                 cur = ins.ops[0]
             elif ins.op == 'phi' and len(ins.d['incoming']) == 1:
                 cur = ins.d['incoming'][0][0]
